@@ -40,7 +40,7 @@ class MolGen:
         if len(token.residues) != 1:
             raise ValueError(f"{token} is not long enough")
         res_names = "ABCDEFGHIJKLMNOPQRSTUVWXYZ"
-        res_name = res_names[token.res_id]
+        res_name = res_names[token.res_id % len(res_names)]
         smiles = token.generate_smiles_fragment()
         params = Chem.SmilesParserParams()
         params.removeHs = True
